@@ -68,6 +68,7 @@ func main() {
 	runSingle()
 	runFull()
 	runOver()
+	runEuclidShapes()
 	runTwinBlocks()
 	runPadMimic()
 	runSelfTest()
